@@ -18,6 +18,17 @@ TYPES = [
     ("crate::tys::B", "{c}::tys::B"),
     ("crate::tys::inner::A", "{c}::tys::inner::A"),
     ("crate::tys::W<crate::tys::B>", "{c}::tys::W<{c}::tys::B>"),
+    # type syntax other than a path (F13)
+    ("&'static String", "&alloc::string::String"),
+    ("(String, i32)", "(alloc::string::String, i32)"),
+    ("[String; 2]", "[alloc::string::String; 2]"),
+    ("[u8; 4]", "[u8; 4]"),
+    ("fn(String) -> Vec<u8>", "fn(alloc::string::String) -> alloc::vec::Vec<u8>"),
+    ("Box<dyn ::std::fmt::Debug>", "alloc::boxed::Box<dyn core::fmt::Debug>"),
+    ("*const u8", "*const u8"),
+    ("Vec<String>", "alloc::vec::Vec<alloc::string::String>"),
+    ("Option<&'static String>", "core::option::Option<&alloc::string::String>"),
+    ("(crate::tys::A, crate::tys::inner::A)", "({c}::tys::A, {c}::tys::inner::A)"),
 ]
 
 # argument containers: key -> (parameter type, value kind, expression builder, model kind letter)
@@ -779,6 +790,8 @@ def feature_tour(crate):
         F("thr_empty_args", opts=dict(threads_empty=True), args=("arr_i", [5, 6])),
         F("thr_empty_range", opts=dict(threads_empty=True, threads_expr="threads = 0..0")),
         M("g_thr", [F("below_thr"), F("below_thr_gen", types=[0, 6])], group=dict(opts=dict(threads_empty=True))),
+        # type syntax other than a path in `types`
+        F("nonpath", types=[10, 1, 11, 12, 14, 15, 16, 17, 18]),
         # every way of writing `ignore`
         F("ign_after", opts=dict(ignore=True, how="attr_after")),
         F("ign_reason", opts=dict(ignore=True, how="reason")),
